@@ -38,7 +38,7 @@ def display_table(ctx, key, adt):
     paths = ctx.paths(key)
     tbl = {}
     for p in ret_paths(paths or []):
-        v = self_discr_variant(ctx.fx, p, adt)
+        v = self_discr_variant(ctx.fx, p, adt, lambda t: strip_refs(t) == ('param', 1))
         if isinstance(v, str):
             tbl.setdefault(v, []).append(fmt_literal_writes(p))
     return tbl
